@@ -264,6 +264,54 @@ sys.exit(1 if (e1 > 1e-8 or e2 > 1e-10 or lam <= 0 or d > 1e-9) else 0)
 '''
 
 
+REPLAY_PLANE = r'''
+import sys, numpy as np
+from EasyFEA.Models.Elastic import _laws
+c = %(case)r
+def build(dim, ps):
+    cls = getattr(_laws, c["cls"])
+    kw = dict(c["params"])
+    if c["cls"] == "Isotropic":
+        return cls(dim, planeStress=ps, **kw)
+    if c["cls"] == "TransverselyIsotropic":
+        return cls(dim, axis_l=np.array(c["axes"][0]), axis_t=np.array(c["axes"][1]), planeStress=ps, **kw)
+    return cls(dim, axis_1=np.array(c["axes"][0]), axis_2=np.array(c["axes"][1]), planeStress=ps, **kw)
+m2, m3 = build(2, c["ps"]), build(3, c["ps"])
+x = [0, 1, 5]
+if c["ps"]:
+    a, b, what = m2.S, m3.S[x, :][:, x], "plane stress: S_2d vs rows/cols (0,1,5) of S_3d"
+else:
+    a, b, what = m2.C, m3.C[x, :][:, x], "plane strain: C_2d vs rows/cols (0,1,5) of C_3d"
+err = np.abs(a - b).max() / np.abs(b).max()
+print(what); print(a); print(b); print("relative difference", err, "expected 0")
+sys.exit(1 if err > 1e-9 else 0)
+'''
+
+REPLAY_LAZY = r'''
+import sys, numpy as np
+from EasyFEA.Models.Elastic import _laws
+cls = getattr(_laws, %(cls)r)
+m = cls(%(dim)d, **%(init)r)
+cur = dict(%(init)r)
+for op in %(ops)r:
+    if op[0] == "set":
+        setattr(m, op[1], op[2]); cur[op[1]] = op[2]
+    elif op[0] == "notify":
+        m.Need_Update()
+    elif op[0] == "readC":
+        got, ref, what = m.C, cls(%(dim)d, **cur).C, "C"
+    elif op[0] == "readS":
+        got, ref, what = m.S, cls(%(dim)d, **cur).S, "S"
+    if op[0].startswith("read"):
+        err = np.abs(got - ref).max() / np.abs(ref).max()
+        if err > 1e-9:
+            print("after", op, "with current parameters", cur, ":", what, "read from the object differs from a freshly built law by", err)
+            sys.exit(1)
+print("every read reflected the current parameters")
+sys.exit(0)
+'''
+
+
 # --------------------------------------------------------------------------- refutations
 def refute_pmat(ctx, pm):
     """search a non-unit orthogonal axis pair for which the translated Get_Pmat is not orthogonal;
@@ -523,8 +571,12 @@ def correspondence(ctx, lw, pm):
                     what = "plane stress S is not rows/cols (0,1,5) of the 3-D S"
                 if e > PTOL:
                     one = dict(c, params=m["pts"][0])
-                    viol.append(("plane-reduction:%s:%s" % (cname, cfg), "%s: %s (rel. %.2e) params %s" % (cname, what, e, m["pts"][0]),
-                                 {"replay_py": REPLAY_LAW % dict(case=one, expected=None), "case": one, "note": what}))
+                    if not shp:
+                        viol.append(("plane-reduction:%s:%s" % (cname, cfg), "%s: %s (rel. %.2e) params %s" % (cname, what, e, m["pts"][0]),
+                                     {"replay_py": REPLAY_PLANE % dict(case=one), "case": one, "note": what}))
+                    else:
+                        viol.append(("plane-reduction:%s:%s" % (cname, cfg), "%s: %s (rel. %.2e) heterogeneous parameters, first point %s" % (cname, what, e, m["pts"][0]),
+                                     {"case": one, "note": what}))
         # frame consistency: the law with axes (a,b) is the tensor rotation of the law with identity axes
         if cname != "Isotropic" and cfg == "3d" and not shp:
             C0, _ = law_model(lw, pm, cname, "3d", m["pts"][0], [[1, 0, 0], [0, 1, 0]])
@@ -666,7 +718,8 @@ def correspondence(ctx, lw, pm):
                 if e_ > 1e-9:
                     viol.append(("lazy-update:%s" % m["cls"],
                                  "%s: after ops %s a read of %s does not reflect the current parameters %s (rel. %.2e)" % (m["cls"], req["lazy"][k]["ops"], kind[4:], m["states"][sid], e_),
-                                 {"ops": req["lazy"][k]["ops"], "init": req["lazy"][k]["init"], "cls": m["cls"], "dim": m["dim"]}))
+                                 {"replay_py": REPLAY_LAZY % dict(cls=m["cls"], dim=m["dim"], init=req["lazy"][k]["init"], ops=req["lazy"][k]["ops"]),
+                                  "ops": req["lazy"][k]["ops"], "init": req["lazy"][k]["init"], "cls": m["cls"], "dim": m["dim"]}))
                     break
     # ---------------- boundary: value 0 is accepted by PositiveParameter; no law may come out
     for c, r in zip(req["boundary"], impl["boundary"]):
@@ -681,7 +734,7 @@ def correspondence(ctx, lw, pm):
     for x in mism[:3]:
         rep = x[2] if len(x) > 2 else {}
         ctx.violation("corr:model-vs-impl:" + x[0].split("#")[0].split(" ")[0], "translated model and implementation disagree: %s: %s" % (x[0], x[1]),
-                      dict(rep, mismatches=["%s: %s" % (y[0], y[1]) for y in mism[:20]]), found_input=bool(rep))
+                      dict(rep, mismatches=["%s: %s" % (y[0], y[1]) for y in mism[:20]]), found_input=False)
     seen = set()
     for key, what, rep in viol:
         if key in seen:
